@@ -147,6 +147,46 @@ CLAIMED["C11"] = dict(
     technique="TLA+ spec + TLC model checking; replay of TLC-enumerated universes; trace validation by TLC",
 )
 
+CLAIMED["C09"] = dict(
+    category="model_checking",
+    text="Every rule of the fixture list and every form the library derives from it (reverse w.r.t. each child = complement/"
+         "quotient, equivalence form, reverse of the equivalence form, equivalence paths incl. one through a reverse rule) computes "
+         "its parent's terms for n <= 6 from providers handing out the children's true terms, with 0-3 statistics including "
+         "statistics merged onto one child statistic and statistics dropped by the child; TLC judges each result against the "
+         "TLA+-defined truth of the form's parent (all parameter tuples).",
+    design_ref="DESIGN.md 3/C09", note="Trusted: TLC; WordUniverse.tla (two definitions proved equal under C01); the rule laboratory's recording providers (their outputs are validated against the truth by TLC; a mismatch is exit 2).",
+    technique="TLA+ ground-truth specification; result validation of isolated rule forms by TLC",
+)
+CLAIMED["C10"] = dict(
+    category="model_checking",
+    text="Counting.tla: while computing level n a rule may ask child i only for sizes <= n - shift[i] and itself only below n. "
+         "MC_Counting shows by exhaustive exploration that under exactly these read bounds every rule set accepted by "
+         "Productivity.tla is evaluated without circular waiting (and that reading one term further breaks this). The recorded "
+         "requests of every rule form of the laboratory (reverse rules included, whose shifts are derived arithmetically), n <= 6, are "
+         "judged by TLC against the bounds.",
+    design_ref="DESIGN.md 3/C10", note="Trusted: TLC; WordUniverse.tla (two definitions proved equal under C01); the rule laboratory's recording providers (their outputs are validated against the truth by TLC; a mismatch is exit 2).",
+    technique="TLA+ spec + TLC model checking (design bridge); trace validation of recorded provider requests by TLC",
+)
+CLAIMED["C07"] = dict(
+    category="model_checking",
+    text="Objects generated by every rule form that supports it (from the children's true objects) and by the root and every rule of "
+         "campaign specifications are judged by TLC against Objs(c, n) of WordUniverse.tla: exact set per parameter value, no "
+         "repetition, number = the count the same rule/specification reports; forward_map then backward_map on every object, parts "
+         "in the child classes, right shape for unions / products (plain, equivalence, reverse-of-equivalence, path forms).",
+    design_ref="DESIGN.md 3/C07", note="Trusted: TLC; WordUniverse.tla (two definitions proved equal under C01); the rule laboratory's recording providers (their outputs are validated against the truth by TLC; a mismatch is exit 2).",
+    technique="TLA+ ground-truth specification; result validation by TLC",
+)
+CLAIMED["C08"] = dict(
+    category="model_checking",
+    text="Sampling.tla. The random source is enumerated, not sampled: at every rule form, for every (n, parameters) and EVERY r in "
+         "1..N the selected branch is recorded and TLC requires each branch to be selected exactly as often as the objects it "
+         "accounts for (computed from the true child counts) with weights summing to N; for whole specifications every complete "
+         "sampler run over all outcomes of the random source is enumerated and TLC checks that each object of the class collects "
+         "probability exactly 1/N (integer arithmetic over a common denominator); the documented refusal when N = 0.",
+    design_ref="DESIGN.md 3/C08", note="Trusted: TLC; WordUniverse.tla (two definitions proved equal under C01); the rule laboratory's recording providers (their outputs are validated against the truth by TLC; a mismatch is exit 2).",
+    technique="TLA+ spec of uniformity; exhaustive enumeration of the random source; result validation by TLC",
+)
+
 NOT_YET = {}
 
 ALL = ["C%02d" % i for i in range(1, 21)]
